@@ -209,6 +209,11 @@ class Credits(Mode):
         """Enable credits play."""
         del kwargs
 
+        if not self.credit_unit:
+            # the machine booted in free play: the credit units have not been calculated yet
+            self._calculate_credit_units()
+            self._calculate_pricing_tiers()
+
         credit_units = self._get_credit_units()
 
         if self.credits_config['persist_credits_while_off_time']:
